@@ -15,7 +15,7 @@ RULE = ("dimension lists as C02 (0..4 dims, one/two/three-axis, any commons, inf
         "weights none / scalar / array / (values, validity), zeros included; both missing-value policies; dense arrays "
         "handed to xcube as int64 and as the unsigned dtype to_array produces. Dyadic stream (k/8 values): every float64 "
         "operation of the real code is exact, compared EXACTLY with the direct Fraction group-by and with the Lean model; "
-        "wide stream: 1-2 dims whose extent / product of extents straddles 2^8 (thorough: 2^16); general stream (arbitrary doubles): tolerance 1e-9 x grand total, missing cells exactly; cells of exactly 2^16 valid or missing rows (thorough: +-1, 2^17 .. 2^18); every third case hands the same fact / weights objects to every call; every fourth case one long-lived ccube object serves all aggregates while its dimensions are re-normalised in place between them. Non-trivial = >=1 dim and "
+        "wide stream: 1-2 dims whose extent / product of extents straddles 2^8 (thorough: 2^16); general stream (arbitrary doubles): tolerance 1e-9 x grand total, missing cells exactly; a mean over a cell whose positive weights add up to less than 1e-8 (known finding F03d); cells of exactly 2^16 valid or missing rows (thorough: +-1, 2^17 .. 2^18); every third case hands the same fact / weights objects to every call; every fourth case one long-lived ccube object serves all aggregates while its dimensions are re-normalised in place between them. Non-trivial = >=1 dim and "
         ">=1 row; distinct by (dims, fact, weights, policy, aggregate)")
 ASSUMPTIONS = ["float64 sums/products of the dyadic stream are exact (bounded magnitude, N <= 40)",
                "float rounding on the general stream is within 1e-9 of the grand total"]
@@ -195,6 +195,36 @@ def big_cells(ctx):
                         compare(ctx, "xcube.%s (cell of %d %s rows)" % (func, c, variant), xv, xm, exp, (2,), None, 0, desc, "C03-xcube-wrong")
 
 
+def tiny_weights(ctx, prefix="C03"):
+    """a cell whose valid weights are positive but add up to less than 1e-8 (sampling weights normalised over a huge
+    population): it has valid rows and a non-zero weight sum, so its mean is due"""
+    from catii import ccube, xcube
+    for w0, n_tiny in ((1e-9, 1), (1e-9, 2), (2.0 ** -40, 3), (3e-9, 1)):
+        N = n_tiny + 4
+        d = np.array([0] * n_tiny + [1] * 4, dtype=np.int64)
+        f = np.array([5.0] * n_tiny + [7.0, 7.0, 9.0, 9.0])
+        w = np.array([w0] * n_tiny + [1.0, 1.0, 0.5, 0.5])
+        for common in (0, 1):
+            desc = {"tiny_weight": w0, "rows_in_cell": n_tiny, "common": common, "func": "mean"}
+            ctx.case(desc, nontrivial=True)
+            ctx.hit("tiny_weights")
+            try:
+                cv, cm = ccube([G.make_index(d, common)], interacting_shape=(2,)).mean(f, weights=w, return_missing_as=(0, False))
+                xv, xm = xcube([d], interacting_shape=(2,)).mean(f, weights=w, return_missing_as=(0, False))
+            except Exception as e:
+                ctx.oracle_fail("mean with tiny weights raised %s: %s" % (type(e).__name__, str(e)[:80]), desc, cls=prefix + "-ccube-raises")
+                continue
+            for name, v, m in (("ccube", cv, cm), ("xcube", xv, xm)):
+                v, m = np.asarray(v, dtype=float), np.asarray(m, dtype=bool)
+                if not m[0]:
+                    ctx.oracle_fail("%s.mean: the cell whose %d valid row(s) carry weight %g each (sum %g > 0) is reported missing; "
+                                    "the direct computation gives 5.0" % (name, n_tiny, w0, w0 * n_tiny), desc,
+                                    cls=prefix + "-mean-tiny-weight-sum" if name == "ccube" else prefix + "-xcube-wrong")
+                elif abs(v[0] - 5.0) > 1e-9 or not m[1] or abs(v[1] - 23.0 / 3.0) > 1e-9:
+                    ctx.oracle_fail("%s.mean with tiny weights gives %s, direct computation [5.0, 7.666...]" % (name, v.tolist()), desc,
+                                    cls="%s-%s-wrong" % (prefix, name))
+
+
 def run(ctx):
     core.load_catii()
     reqs, pend = [], []
@@ -239,6 +269,7 @@ def run(ctx):
         ctx.hit("wide_extents")
         check(ctx, case, reqs, pend)
     big_cells(ctx)
+    tiny_weights(ctx)
     if ctx.oracle_only:
         return
     for (desc, kind, func, gv, gm), m in zip(pend, ctx.model.run(reqs)):
